@@ -127,7 +127,9 @@ PScalar(t, st) ==
 \* ---- flow collections. `n` = indentation of the enclosing block (continuation lines need > n);
 \*      `ml` = may break lines; separators inside flow are spaces, or a break plus n+1.. spaces ----
 NoML == -100      \* as `n`: the flow node must stay on one line (it is an implicit key)
-FSep(t, i, n, ml) == IF ml /\ (Cell(t, i) % 4) = 3 THEN <<"\n">> \o Spaces(n + 1 + ((Cell(t, i) \div 4) % 3)) ELSE IF (Cell(t, i) % 2) = 1 THEN <<" ">> ELSE <<>>
+\* (a line break may be preceded by a comment)
+FSep(t, i, n, ml) == IF ml /\ (Cell(t, i) % 8) = 7 THEN <<" ", "#", " ", "c", "\n">> \o Spaces(n + 1 + ((Cell(t, i) \div 8) % 3))
+                     ELSE IF ml /\ (Cell(t, i) % 4) = 3 THEN <<"\n">> \o Spaces(n + 1 + ((Cell(t, i) \div 4) % 3)) ELSE IF (Cell(t, i) % 2) = 1 THEN <<" ">> ELSE <<>>
 FlowNode(t, st, n, d) ==
   LET c == (Cell(t, st.i) % 8) IN
   IF d > 0 /\ c = 6
